@@ -46,8 +46,8 @@ type Sim struct {
 	env     *boolEnv
 	vals    map[ssa.Value]ssa.Value // results of inlined helpers on the current path
 	// booleans kept in fields of local structs, tracked along the path
-	mem  map[simMemKey]bool          // (frame, alloc, field) → value, when known
-	snap map[ssa.Value]map[int]bool  // a whole-struct load → the known boolean fields at that moment
+	mem  map[simMemKey]bool         // (frame, alloc, field) → value, when known
+	snap map[ssa.Value]map[int]bool // a whole-struct load → the known boolean fields at that moment
 }
 
 type simMemKey struct {
